@@ -252,7 +252,7 @@ def regenerate():
     m = re.search(r'static\s+inline\s+int\s+closer\s*\(\s*rci_t\s+a\s*,\s*int\s+cutoff\s*\)\s*\{\s*return\s+(.*?);\s*\}', st, re.S)
     if not m:
         raise TranslateError('strassen.c: closer() not found')
-    closer = c_expr_to_lean(m.group(1).strip(), {'a': 'a', 'cutoff': 'cutoff'})
+    closer = c_expr_to_lean(m.group(1).strip(), {'a': 'a', 'cutoff': 'cutoff', 'm4ri_radix': str(consts['radix'])})
     m2 = re.search(r'static\s+inline\s+rci_t\s+split_round\s*\(\s*rci_t\s+n\s*,\s*rci_t\s+k\s*\)\s*\{\s*rci_t\s+half\s*=\s*(.*?);\s*return\s+(.*?);\s*\}', mzdc, re.S)
     if not m2:
         raise TranslateError('mzd.c: split_round not found')
@@ -267,6 +267,7 @@ def regenerate():
     omp = omp_inventory()
     L = []
     L.append('/- GENERATED by vlib/translate.py from /repo/m4ri on every check. Do not edit. -/')
+    L.append('set_option linter.unusedVariables false')
     L.append('namespace M4ri.Gen')
     for k, v in consts.items():
         L.append('def %s : Nat := %d' % (k, v))
